@@ -90,6 +90,9 @@ func genTimelineCfg(rng *core.Rng, a *refmodel.Asset, nowBase int64) URLCfg {
 		if c.MPDType == "number" {
 			opts = append(opts, "inf")
 		}
+		if rng.Chance(0.15) {
+			opts = []string{"-0.5", "-1", fmt.Sprintf("-%.3f", segS/2), fmt.Sprintf("-%.0f", segS*2)} // segments announced (and served) later
+		}
 		c.Ato = core.Pick(rng, opts)
 	}
 	return c
@@ -391,6 +394,9 @@ func c02Poll(res *core.Result, srv *hx.Srv, a *refmodel.Asset, w c02World, cfg U
 				if rep := a.Reps[ca.RepID]; rep != nil {
 					slack += ceilDiv(int64(rep.FrameDur)*1000, int64(rep.Timescale)) + 1
 				}
+			}
+			if atoMS < 0 {
+				slack -= atoMS // a negative offset: available later, and listed for tsbd from then on
 			}
 			if firstEndMS < relNow-tsbdMS-slack-1 {
 				res.Violate("C02.window-start", merge(f, core.Sig("kind", "first-too-old")),
